@@ -10,7 +10,7 @@ from ..refsmodel import RefClass, ref_classes, _local_alias, resolve_local, is_m
 from .common import FnCtx, fnctx, is_method_call, is_self_call
 
 PROP = "C04"
-FLOORS = {"C04.R1": 90, "C04.R2": 9, "C04.R3": 12, "C04.R4": 26, "C04.R5": 22, "C04.R6": 8, "C04.R7": 5}
+FLOORS = {"C04.R1": 32, "C04.R2": 3, "C04.R3": 8, "C04.R4": 13, "C04.R5": 22, "C04.R6": 8, "C04.R7": 3}
 META = {
     "explanation": "Structural induction: for every operator dunder of BaseRef (Python data-model table) the node class built, the "
                    "operand order, the operator applied by that class's _get_value to the _mk_value of its operand fields and the "
